@@ -40,6 +40,7 @@ type simZebra struct {
 	enabled bool
 	mute    bool // accept the connection but never send the first message
 	nht     *nhtState
+	half    bool // zebra has shut down its receiving side
 }
 
 func zHeaderSize(v uint8) int {
@@ -105,7 +106,16 @@ func (z *simZebra) serve(conn *simConn) {
 			conn.Write(zFrame(v, 0, 0xfff0, []byte{1, 2, 3}))
 		}
 	}
-	defer conn.Close()
+	defer func() {
+		z.mu.Lock()
+		half := z.half
+		z.mu.Unlock()
+		if !half {
+			conn.Close()
+		}
+		// (half-closed: zebra keeps its sending side open and silent; the connection goes away
+		// when gobgp closes it)
+	}()
 	for {
 		h := make([]byte, 4)
 		if _, err := io.ReadFull(conn, h); err != nil {
@@ -318,7 +328,7 @@ func genZebra(seed uint64, tier, mode string) *Script {
 		case r < 88:
 			add(Op{Kind: "wd", Peer: 0, Family: "ipv4-unicast", Prefix: pick(g, []string{"10.1.0.0/24", "10.1.1.0/24", "10.2.0.0/16"})})
 		case r < 94:
-			add(Op{Kind: "zclose", Arg: pick(g, []string{"close", "reset"})})
+			add(Op{Kind: "zclose", Arg: pick(g, []string{"close", "reset", "halfclose", "halfclose"})})
 		default:
 			add(Op{Kind: "wait", N: pick(g, []int{500, 3000, 20000})})
 		}
@@ -458,10 +468,17 @@ func zebraOp(w *simWorld, actor int, op *Op) {
 		if conn == nil || conn.isClosed() {
 			return
 		}
-		if op.Arg == "reset" {
+		switch op.Arg {
+		case "reset":
 			w.net.resetPair(conn)
 			w.net.stats.fire("conn_reset")
-		} else {
+		case "halfclose":
+			// zebra stops receiving: gobgp's writes fail while its reads keep blocking
+			z.mu.Lock()
+			z.half = true
+			z.mu.Unlock()
+			conn.r.setBroken()
+		default:
 			conn.Close()
 		}
 		w.probe("zebra_closed")
